@@ -47,11 +47,16 @@ Menu(t) ==
             (CASE t = 1 -> {<<"Set">>, <<"Set", "Set">>}
                [] t = 2 -> {<<"Set", "DropOwner">>, <<"Subscribe", "PollNext">>}
                [] OTHER -> {<<"PollNext", "PollNext">>, <<"PollNext">>})
+      [] ProgChoice = "uniq" ->    \* the unique Observable (thread 1) is set / dropped against two polling subscribers
+            (CASE t = 1 -> {<<"DropOwner">>, <<"Set", "DropOwner">>, <<"Set", "Set">>}
+               [] t = 2 -> {<<"PollNext", "PollNext">>}
+               [] OTHER -> {<<"PollNext", "PollNext">>, <<"PollNext">>})
       [] OTHER -> {<<>>}
 
-InitOwner(t) == CASE ProgChoice = "dropup" -> t = 1 [] OTHER -> t \in {1, 2}
+IsUnique == ProgChoice = "uniq"
+InitOwner(t) == CASE ProgChoice \in {"dropup", "uniq"} -> t = 1 [] OTHER -> t \in {1, 2}
 InitWeak(t)  == ProgChoice = "dropup" /\ t = 2
-InitSub(t)   == t = 3
+InitSub(t)   == t = 3 \/ (IsUnique /\ t = 2)
 
 Init ==
     /\ val = 0 /\ ver = 1 /\ wakers = {} /\ woken = {}
@@ -89,8 +94,21 @@ CloseEffect == ver' = 0 /\ woken' = woken \cup wakers /\ wakers' = {}
 
 (***************************** DropOwner ************************************)
 (* op -> [decided_last | before_release] *)
+(* Observable::drop (unique): close() unconditionally, without touching the outer lock *)
+UDropStart(t) ==
+    /\ IsUnique /\ pc[t] = "op" /\ Cur(t) = "DropOwner" /\ owner[t]
+    /\ pc' = [pc EXCEPT ![t] = "uclose:before_meta_lock"]
+    /\ UNCHANGED <<val, ver, wakers, woken, rl, wl, ml, cState, cClones, owner, weak, subscribed, obsv, prog, res>>
+
+UDropClose(t) ==
+    /\ pc[t] = "uclose:before_meta_lock" /\ ml = 0
+    /\ CloseEffect
+    /\ owner' = [owner EXCEPT ![t] = FALSE] /\ cState' = cState - 1 /\ cClones' = cClones - 1
+    /\ Finish(t, ROK)
+    /\ UNCHANGED <<val, rl, wl, ml, weak, subscribed, obsv>>
+
 DropStart(t) ==
-    /\ pc[t] = "op" /\ Cur(t) = "DropOwner" /\ owner[t]
+    /\ ~IsUnique /\ pc[t] = "op" /\ Cur(t) = "DropOwner" /\ owner[t]
     /\ IF DropDecisionAtomic
        THEN (* the reference to the clone counter is given up here, atomically with the decision *)
             /\ cClones' = cClones - 1
@@ -213,7 +231,7 @@ SubscribeFinish(t) ==
     /\ UNCHANGED <<val, ver, wakers, woken, rl, wl, ml, cClones, owner, weak, obsv>>
 
 Step(t) ==
-    \/ DropStart(t) \/ DropTryRead(t) \/ DropClose(t) \/ DropRelease(t)
+    \/ DropStart(t) \/ DropTryRead(t) \/ DropClose(t) \/ DropRelease(t) \/ UDropStart(t) \/ UDropClose(t)
     \/ SetStart(t) \/ SetStore(t) \/ SetWake(t) \/ SkipCall(t)
     \/ PollStart(t) \/ PollDecide(t) \/ PollPark(t)
     \/ UpgradeStart(t) \/ UpgradeFinish(t)
